@@ -1827,10 +1827,25 @@ func checkTilecover(e *env) error {
 
 // ---------------------------------------------------------------- encoders
 
+// what the check believes the exported package-level settings of the encoders to be (the defaults
+// unless TestPropPackageSettings changed them; never touched while concurrent groups run)
+var (
+	cfgWKBOrder  binary.ByteOrder = binary.LittleEndian
+	cfgEWKBOrder binary.ByteOrder = binary.LittleEndian
+	cfgEWKBSRID                   = 4326
+)
+
 func checkWKB(e *env) error {
-	orders := []binary.ByteOrder{binary.LittleEndian, binary.BigEndian}
+	// orders[0] stands for "no byte order argument": the package's exported default then applies
+	orders := []binary.ByteOrder{nil, binary.LittleEndian, binary.BigEndian}
 	for _, srid := range []int{0, e.c.SRID} {
 		for oi, o := range orders {
+			if o == nil {
+				o = cfgWKBOrder
+				if srid != 0 {
+					o = cfgEWKBOrder
+				}
+			}
 			want := modelWKB(nil, e.g, srid, o)
 			var got []byte
 			var err error
@@ -1861,7 +1876,7 @@ func checkWKB(e *env) error {
 			}
 		}
 	}
-	le := modelWKB(nil, e.g, 0, binary.LittleEndian)
+	le := modelWKB(nil, e.g, 0, cfgWKBOrder)
 	// the convenience forms agree with Marshal
 	if got := wkb.MustMarshal(e.ro); !bytes.Equal(got, le) {
 		return fmt.Errorf("wkb.MustMarshal = %x, want %x", got, le)
@@ -1891,7 +1906,7 @@ func checkWKB(e *env) error {
 		return err
 	}
 	srid := e.c.SRID
-	ee := modelWKB(nil, e.g, srid, binary.LittleEndian)
+	ee := modelWKB(nil, e.g, srid, cfgEWKBOrder)
 	if got := ewkb.MustMarshal(e.ro, srid); !bytes.Equal(got, ee) {
 		return fmt.Errorf("ewkb.MustMarshal = %x, want %x", got, ee)
 	}
@@ -1904,6 +1919,10 @@ func checkWKB(e *env) error {
 	buf.Reset()
 	if err := ewkb.NewEncoder(&buf).Encode(e.ro, srid); err != nil || !bytes.Equal(buf.Bytes(), ee) {
 		return fmt.Errorf("ewkb.Encoder.Encode = %x, %v; want %x", buf.Bytes(), err, ee)
+	}
+	buf.Reset()
+	if def := modelWKB(nil, e.g, cfgEWKBSRID, cfgEWKBOrder); ewkb.NewEncoder(&buf).Encode(e.ro) != nil || !bytes.Equal(buf.Bytes(), def) {
+		return fmt.Errorf("ewkb.Encoder.Encode without srid = %x; want %x (ewkb.DefaultSRID %d, default byte order %v)", buf.Bytes(), def, cfgEWKBSRID, cfgEWKBOrder)
 	}
 	buf.Reset()
 	if err := ewkb.NewEncoder(&buf).SetSRID(srid).Encode(e.ro); err != nil || !bytes.Equal(buf.Bytes(), ee) {
@@ -1931,8 +1950,9 @@ func checkWKB(e *env) error {
 	} else {
 		pre := make([]byte, 4)
 		binary.LittleEndian.PutUint32(pre, uint32(srid))
-		if b, ok := v.([]byte); !ok || !bytes.Equal(b, append(pre, le...)) {
-			return fmt.Errorf("ewkb.ValuePrefixSRID = %v, want %x%x", v, pre, le)
+		plain := modelWKB(nil, e.g, 0, cfgEWKBOrder)
+		if b, ok := v.([]byte); !ok || !bytes.Equal(b, append(pre, plain...)) {
+			return fmt.Errorf("ewkb.ValuePrefixSRID = %v, want %x%x", v, pre, plain)
 		}
 	}
 	return e.unchanged("ewkb convenience encoders")
